@@ -463,8 +463,14 @@ func (c *ExecCtx) evalBuiltin(st *State, name string, call *ast.CallExpr) []Val 
 	case "delete":
 		m := c.eval(st, call.Args[0])
 		mt := unalias(m.Ty).Underlying().(*types.Map)
-		k := c.convert(st, c.eval(st, call.Args[1]), mt.Key())
+		kv := c.eval(st, call.Args[1])
+		k := c.convert(st, kv, mt.Key())
+		// anchors `before call(delete)` / `call(delete)`: $arg0 map, $arg1 key
+		c.runBeforeNamedCallAnchors(st, "delete", call, nil, []Val{m, {k, mt.Key()}})
 		c.mapDelete(st, m, k)
+		c.callArgs = []Val{m, {k, mt.Key()}}
+		c.runNamedCallAnchors(st, "delete", call, nil)
+		c.callArgs = nil
 		return nil
 	case "copy":
 		dst := c.eval(st, call.Args[0])
